@@ -150,6 +150,7 @@ func Run(c *run.Ctx) {
 	}
 	pins(c)
 	scalerLaws(c)
+	barUnitLaws(c)
 	formatterLaws(c)
 	renderCases(c)
 	cliCases(c)
@@ -168,6 +169,8 @@ func runCase(c *run.Ctx, cs *Case) {
 		classes = e.runCLI()
 	case "fmt":
 		e.runFmt()
+	case "barunit":
+		e.runBarUnit()
 	default:
 		shadowFails = nil
 		classes = e.runRender()
